@@ -11,6 +11,31 @@ def formulas_of(pid):
     return sorted(set(re.findall(r'"(%s_\w+)"' % pid, txt)))
 
 
+RELEVANT = {
+    "C01": ("ready:committed", "apply:", "became-leader", "restart", "snapshot:", "crash"),
+    "C02": ("deliver:Vote", "deliver:PreVote", "became-leader", "restart", "crash", "event-in-joint"),
+    "C03": ("deliver:App", "deliver:Snap", "crash", "restart", "deliver:duplicate"),
+    "C04": ("became-leader", "deliver:App", "deliver:Vote", "deliver:TimeoutNow", "event-in-joint"),
+    "C05": ("crash", "restart", "ready:no-fsync", "ready:hardstate", "deliver:Vote", "deliver:App"),
+    "C06": ("deliver:AppResp", "deliver:Heartbeat", "deliver:Snap", "event-in-joint", "became-leader"),
+    "C07": ("ready:hardstate", "restart", "crash", "deliver:"),
+    "C08": ("ready:committed", "ready:snapshot", "restart"),
+    "C09": ("deliver:Snap", "snapshot:", "ready:snapshot", "deliver:duplicate"),
+    "C10": ("apply:conf-change", "propose:", "event-in-joint", "became-leader"),
+    "C11": ("ready:read-states", "deliver:ReadIndex", "deliver:Heartbeat"),
+    "C14": ("panic", "deliver:", "crash", "restart"),
+    "C15": ("crash", "restart", "event-in-joint", "deliver:Snap"),
+    "C16": ("deliver:App", "deliver:AppResp", "propose:", "deliver:Snap"),
+    "C17": ("deliver:PreVote", "deliver:Vote", "became-leader"),
+    "C19": ("became-leader", "event-in-joint"),
+    "C20": ("propose:", "deliver:Prop"),
+}
+
+
+def relevant(pid, k):
+    return any(k.startswith(p) for p in RELEVANT.get(pid, ("",)))
+
+
 def cluster_evidence(pid, tier, seed, res, model, new, known, wall):
     states = int(model.get("states", 0))
     transitions = int(model.get("transitions", 0))
@@ -25,6 +50,8 @@ def cluster_evidence(pid, tier, seed, res, model, new, known, wall):
         "observed_events": res["events"],
         "formulas": formulas_of(pid),
         "actions_executed_on_real_code": res.get("acts", {}),
+        "situations_exercised": {k: v for k, v in sorted(res.get("kinds", {}).items()) if relevant(pid, k)},
+        "traces_by_driver": res.get("profiles", {}),
         "model_runs": [{k: v for k, v in r.items() if k != "out"} for r in model.get("runs", [])],
         "states_note": ("states/transitions are TLC's distinct/generated states of this run's model configs"
                         if states else
